@@ -47,7 +47,10 @@ def run(ctx):
     else:
         ctx.stats.cls("arith_layer_missing")
     if ctx.only is None or "daemon" in ctx.only:
-        q.search(ctx, "C15", TAGS, 100, 1500, fixed=FIXED)
+        # every history is re-run with single failing read-only open()s of the daemon taken from its own trace (the start of a pass opens
+        # info/<n> and local|remote/<n>); under a fault only "no pass before the back-off time" is judged - the "promptly" clauses are
+        # legitimately delayed by the documented 123 s system-failure pause (added after seeded change C15-C)
+        q.search(ctx, "C15", TAGS, 70, 1000, fixed=FIXED, sweep={"fault": 3, "faults_only": True, "fault_classes": ["open"], "tags": ["C15-early"]})
 
 
 def replay(ctx, path):
